@@ -64,7 +64,9 @@ def data_line(rng):
     if k == 5:
         return 'string ' + rng.choice(['hello', 'a', 'ab', 'hello world', 'x' * 7, 'tab\\there', '', '\u00e9\u00e9', 'na\u00efve!', '\u4e2d\u6587', '\U0001f600', 'caf\u00e9s'])
     if k == 6:
-        return 'pack <{} {}'.format(rng.choice(['B', 'H', 'I', 'h', 'i', 'b']), rng.choice([0, 1, 100, 127]))
+        # also formats WITHOUT a byte-order character (native sizes: l / L / q are 8 bytes on the 64-bit hosts) and with the other prefixes
+        return 'pack {}{} {}'.format(rng.choice(['<', '<', '<', '>', '', '', '=', '!', '@']), rng.choice(['B', 'H', 'I', 'h', 'i', 'b', 'L', 'l', 'q', 'Q']),
+                                      rng.choice([0, 1, 100, 127]))
     return 'dd 0x1122334455667788'
 
 
